@@ -33,6 +33,15 @@ func registry() []PropSpec {
 			ID: "C08",
 			Quick: []HarnessSpec{
 				{Pkg: pkgCC, Func: "H08a_q", Unwind: 6, Recur: 8, Note: "<=2 patterns x <=3 components over {a,b,*,**}; name <=3 components over {a,b}"},
+				{Pkg: pkgCC, Func: "H08b_q", Unwind: 10, Recur: 10, Note: "addPattern/matchPattern on strings <=4 bytes over {a,*,/} (pattern) and {a,/} (name), including empty components"},
+				{Pkg: pkgCC, Func: "H08c_q", Unwind: 8, Recur: 8, Note: "allUnmatched after matching <=2 names (<=2 components) against <=2 patterns (<=2 components)"},
+				{Pkg: pkgMain, Func: "H08f_q", Unwind: 12, UnwindFor: map[string]int{"vModelContains": 40}, Note: "parsePatternFile on any content <=4 bytes over {a,#,newline,space}"},
+				{Pkg: pkgMain, Func: "H08e_q", Unwind: 12, UnwindFor: map[string]int{"vModelContains": 40}, Split: []SplitDim{{"nargs", 0, 3}, {"kind#0", 0, 3}, {"kind#1", 0, 3}, {"kind#2", 0, 3}}, CaseNote: "case split: number of args and kind of each arg (2 literals, 2 @files) enumerated; file contents and readability symbolic", Note: "argsToPatterns on <=3 args, each a literal or one of two @files (content <=3 bytes over {a,b,newline}, readable or not)"},
+			},
+			Thorough: []HarnessSpec{
+				{Pkg: pkgCC, Func: "H08a_t", Unwind: 8, Recur: 12, Note: "<=3 patterns x <=4 components; name <=5 components"},
+				{Pkg: pkgCC, Func: "H08b_t", Unwind: 12, Recur: 12, Note: "strings <=5 bytes", JobSecs: 1500, ExecSecs: 1400},
+				{Pkg: pkgCC, Func: "H08c_t", Unwind: 10, Recur: 12, Note: "<=3 patterns x <=3 components, 2 names <=3 components"},
 			},
 			Stubs: []string{"component strings drawn from a finite alphabet of constant strings"},
 			Out:   []string{"known-failing/known-flaky conflict rejection inside run()"},
